@@ -148,6 +148,11 @@ func c02Gen(c *vfCtx, emit func(c02Case)) {
 		pairs("snap", tricky, color, "unset")
 		pairs("ssnap", tricky, color, "unset")
 	}
+	// stored texts with a carriage return at the end of a line (known finding K14: the line reader drops it; a line `---\r` even ends the entry)
+	crs := []string{"a", "a\r", "a\r\nb", "a\nb", "a\n---\r\nb", "a\n---\r", "---\r\nb", "a\r\n", "a\n", "a\r\r\nb", "a\r\nb\r"}
+	for _, color := range []bool{false, true} {
+		pairs("snap", crs, color, "unset")
+	}
 	// texts that differ only in terminal control sequences (the report itself is made of such sequences when colours are on),
 	// in other control characters, or in invisible/combining code points
 	ctl := []string{"ERROR: disk full", "\x1b[31mERROR\x1b[0m: disk full", "\x1b[33mERROR\x1b[0m: disk full", "\x1b[1;31mERROR\x1b[m: disk full", "ERROR\x1b[0m: disk full",
@@ -207,6 +212,10 @@ func c02Run(c *vfCtx, cs c02Case) {
 	multi := cs.API == "snap" || cs.API == "yaml"
 	if multi && c02K1(vfFormat(call(cs.S)), vfFormat(call(cs.R))) {
 		class = "K1-escape-not-injective"
+	}
+	if multi && vfHasTrailingCR(vfFormat(call(cs.S))) {
+		// K14: the STORED text has a CR at the end of a line
+		class = "K14-stored-cr-at-end-of-line"
 	}
 	// record(s) once per (api, s): replays that behave do not modify anything
 	if c02Cache.key != key {
